@@ -1546,7 +1546,7 @@ namespace bxdecay0 {
           // New in 2018-12-05:
           bb_params_.Qbb  = 0.655;
           bb_params_.Zdbb = 70.;
-          bb_params_.Adbb = 174.;
+          bb_params_.Adbb = 170.;
           bb_params_.EK   = 0.061;
           if (ilevel_ < 0 || ilevel_ > 1) {
             std::cerr << "[error] "
